@@ -154,6 +154,37 @@ class ExprModel(RDFModel):
                           note="A || B: TRUE iff some operand is TRUE; error iff none is TRUE and some operand errs"))
 
 
+        # ---- A && B (after fix 4296f56f the same loop shape as ||)
+        def and_inv(lc):
+            x, y = z3.Ints("ax ay")
+            some_err = z3.Exists([y], z3.And(lc.done[y], ebv_kind(y) == 2))
+            none_false = z3.ForAll([x], z3.Implies(lc.done[x], ebv_kind(x) != 0))
+            if "error" not in lc.env:
+                return none_false
+            return z3.And(none_false, some_err if lc.env["error"] is not None else z3.Not(some_err))
+
+        def and_post(c):
+            e = c.args["e"].z
+            x = z3.Int("apx")
+            some_false = z3.Exists([x], z3.And(ops(c, x), ebv_kind(x) == 0))
+            some_err = z3.Exists([x], z3.And(ops(c, x), ebv_kind(x) == 2))
+            return [("and-false-iff-some-operand-false", z3.Implies(has_other(e), c.result.z == lit_bool(z3.Not(some_false)))),
+                    ("error-not-swallowed", z3.Implies(has_other(e), z3.Or(some_false, z3.Not(some_err)))),
+                    ("single-operand-passes-through", z3.Implies(z3.Not(has_other(e)), c.result.z == first(e)))]
+
+        def and_raises(c):
+            e = c.args["e"].z
+            x, y = z3.Ints("arx ary")
+            return z3.And(has_other(e), z3.Not(z3.Exists([x], z3.And(ops(c, x), ebv_kind(x) == 0))),
+                          z3.Exists([y], z3.And(ops(c, y), ebv_kind(y) == 2)))
+        self.add(Contract("C04", REL, "ConditionalAndExpression", [Param("e", EXPR), Param("ctx", INT)], ret=INT,
+                          pre=lambda c: c.args["e"].z > 0, post=and_post,
+                          raises={"SPARQLError": and_raises}, modifies=[],
+                          loops={0: LoopSpec(and_inv, var_types={"x": INT, "error": havoc_error, "e": "poison"},
+                                             fingerprint="[expr] + other")},
+                          note="A && B: FALSE iff some operand is FALSE (also when another errs); error iff none is FALSE "
+                               "and some operand errs; TRUE otherwise"))
+
         # ---- FrozenBindings.forget: the scoping helper of OPTIONAL / sub-queries
         def fmap(st, cls, fld, z):
             return st.content(MAP, st.field(cls, fld, z))
